@@ -632,7 +632,8 @@ EXPECT = ["C15.maxstep.every_component_of_an_inserted_point_repeats_its_own_pred
           "C15.maxstep.values_kept_and_inserted_points_repeat_predecessor", "C15.maxstep.returned_path_respects_the_cap",
           "C15.path_value_is_jump_plus_diffusion_each_time_it_is_read", "C15.reading_the_path_value_leaves_its_components_unchanged",
           "C15.chain.jumptimes.jump_component_is_running_sum_over_the_whole_path", "C15.chain.jumptimes.one_sampled_increment_per_jump",
-          "C15.copula.fixed.a_path_is_produced_for_every_number_of_product_dates"]
+          "C15.copula.fixed.a_path_is_produced_for_every_number_of_product_dates",
+          "C15.copula.coupled_maxstep.each_level_refines_with_its_own_cap"]
 
 
 def main(tier):
